@@ -5,8 +5,8 @@ open AwsVerif.Ring Driver
 
 def showRes : Res → List String
   | .ok off len => [s!"P acq OK len={len}", s!"W off={off}"]
-  | .oom => ["P acq AWS_ERROR_OOM"]
-  | .invalid => ["P acq AWS_ERROR_INVALID_ARGUMENT"]
+  | .oom => ["P acq AWS_ERROR_OOM", "P dest_untouched=1"]           -- c15_refusal_leaves_dest
+  | .invalid => ["P acq AWS_ERROR_INVALID_ARGUMENT", "P dest_untouched=1"]
 
 def rels (r : Ring) : Nat → Ring
   | 0 => r
@@ -38,6 +38,8 @@ def doAcquire (r : Ring) (k p : Nat) (argsInvalid : Bool) (f : Ring → Nat → 
     let (r', res) := f r1 tl
     (r', [s!"W ev={events r1 tl res}"] ++ showRes res ++ [s!"P outstanding={r'.out.length}", validLine])
 
+def isLiveTok (d : String) : Bool := d.startsWith "live" && ((d.drop 4).toString.toNat?).isSome
+
 def step (s : Option Ring) (t : List String) : Option Ring × List String :=
   match s, t with
   | _, ["init", n] => match parseSize? n with
@@ -53,6 +55,10 @@ def step (s : Option Ring) (t : List String) : Option Ring × List String :=
       let (r', ls) := doAcquire r k p (q = 0 ∨ m = 0) (fun r t => acquireUpToWith r t m q)
       (some r', ls)
     | _, _, _, _ => (s, ["bad-op"])
+  -- optional last token `live<j>`: which caller handle is passed as dest; irrelevant to the model (a grant is
+  -- queued as usual, a refusal leaves dest untouched)
+  | some r, ["acq", k, p, q, d] => if isLiveTok d then step (some r) ["acq", k, p, q] else (s, ["bad-op"])
+  | some r, ["upto", k, p, m, q, d] => if isLiveTok d then step (some r) ["upto", k, p, m, q] else (s, ["bad-op"])
   | some r, ["rel"] => let r' := release r; (some r', [s!"P outstanding={r'.out.length}", validLine])
   | _, _ => (s, ["bad-op"])
 
